@@ -26,7 +26,7 @@ const RULE: &str = "case = one route table (scopes nested up to 3 levels, resour
 (static, {name}, {name:\\d+}, tail), App::route sugar, method/header/host/All/Any/Not guards on scopes, resources and \
 routes, per-node app_data markers, default services) and 1..24 requests (methods, Host / x-a headers, paths over an \
 alphabet with %2F %25 %2B %61, empty segments, trailing slashes, query strings); tables: every table of <= 2 top-level \
-nodes over a menu of 6 resource and 4 scope patterns with <= 2 children per scope; every table of <= 2 overlapping top-level nodes over 57 templates combining guards, data, defaults and route sets (x GET/POST x 5 paths); a third exhaustive family with the same marker type registered at up to three levels and read through ServiceRequest::app_data by guards (D~n) and reporting middlewares (w=), and with service factories that are Pending on their first polls (z=, !k) in front of later-registered overlapping services at app, scope and route level; plus seeded random tables to depth 3 \
+nodes over a menu of 6 resource and 4 scope patterns with <= 2 children per scope; every table of <= 2 overlapping top-level nodes over 57 templates combining guards, data, defaults and route sets (x GET/POST x 5 paths); a third exhaustive family with the same marker type registered at up to three levels and read through ServiceRequest::app_data by guards (D~n) and reporting middlewares (w=), and with service factories that are Pending on their first polls (z=, !k) in front of later-registered overlapping services at app, scope and route level; a fourth exhaustive family with literal text containing regex metacharacters after the last dynamic segment (/{name}.json, .v1+x, (a)) x paths differing exactly at such a character; a fifth exhaustive family building the same tables through .configure(|cfg| ..) (children suffix inside the closure; default_service before / after / inside), on app and nested scopes; plus seeded random tables to depth 3 \
 with requests derived from a route of the table (and mutations of them) and random requests; a request is non-trivial \
 if some service of the table was committed to (a handler, a registered default, a 405, or a non-empty resource path); \
 distinct = distinct (case, output) hashes";
@@ -66,10 +66,19 @@ pub struct MwT {
 
 #[derive(Clone, Debug)]
 pub enum NodeT {
-    Scope { pat: String, guards: Vec<G>, data: Option<u32>, children: Vec<NodeT>, dflt: Option<u32>, mw: MwT },
+    Scope { pat: String, guards: Vec<G>, data: Option<u32>, children: Vec<NodeT>, dflt: Option<u32>, mw: MwT, via: Option<ViaT> },
     Resource { pats: Vec<String>, guards: Vec<G>, data: Option<u32>, routes: Vec<RouteT>, dflt: Option<u32>, mw: MwT },
     /// `App::route(path, route)` / `Scope::route(path, route)`
     RouteSugar { pat: String, route: RouteT },
+}
+
+/// `c=<order><k>`: the children from index `k` on are registered through `.configure(|cfg| …)`
+#[derive(Clone, Copy, Debug)]
+pub struct ViaT {
+    /// 'a': `.default_service(..)` is called before `.configure(..)`, 'b': after it,
+    /// 'i': the default service and the data are set inside the closure
+    pub order: char,
+    pub from: usize,
 }
 
 #[derive(Clone, Debug)]
@@ -77,6 +86,7 @@ pub struct AppT {
     pub data: Option<u32>,
     pub children: Vec<NodeT>,
     pub dflt: Option<u32>,
+    pub via: Option<ViaT>,
 }
 
 #[derive(Clone, Debug)]
@@ -172,6 +182,7 @@ struct Attrs {
     data: Option<u32>,
     dflt: Option<u32>,
     mw: MwT,
+    via: Option<ViaT>,
 }
 
 fn parse_attrs<'a>(toks: &[&'a str], i: &mut usize) -> Option<Attrs> {
@@ -186,6 +197,12 @@ fn parse_attrs<'a>(toks: &[&'a str], i: &mut usize) -> Option<Attrs> {
             a.guards.push(g);
         } else if let Some(n) = t.strip_prefix("df=") {
             a.dflt = Some(n.parse().ok()?);
+        } else if let Some(c) = t.strip_prefix("c=") {
+            let order = c.chars().next()?;
+            if !matches!(order, 'a' | 'b' | 'i') {
+                return None;
+            }
+            a.via = Some(ViaT { order, from: c[1..].parse().ok()? });
         } else if let Some(n) = t.strip_prefix("w=") {
             a.mw.report = Some(n.parse().ok()?);
         } else if let Some(n) = t.strip_prefix("z=") {
@@ -214,7 +231,7 @@ fn parse_nodes(toks: &[&str], i: &mut usize) -> Option<Vec<NodeT>> {
             }
             *i += 1;
             let children = parse_nodes(toks, i)?;
-            out.push(NodeT::Scope { pat: p.to_owned(), guards: a.guards, data: a.data, children, dflt: a.dflt, mw: a.mw });
+            out.push(NodeT::Scope { pat: p.to_owned(), guards: a.guards, data: a.data, children, dflt: a.dflt, mw: a.mw, via: a.via });
         } else if let Some(p) = t.strip_prefix("r:") {
             let a = parse_attrs(toks, i)?;
             if *toks.get(*i)? != "(" {
@@ -262,7 +279,7 @@ fn parse_app(toks: &[&str]) -> Option<AppT> {
     if i != toks.len() {
         return None;
     }
-    Some(AppT { data: a.data, children, dflt: a.dflt })
+    Some(AppT { data: a.data, children, dflt: a.dflt, via: a.via })
 }
 
 fn parse_req(toks: &[&str]) -> Option<ReqT> {
@@ -478,54 +495,113 @@ fn mk_resource(pats: &[String], guards: &[G], data: Option<u32>, routes: &[Route
     r
 }
 
-fn mk_scope(pat: &str, guards: &[G], data: Option<u32>, children: &[NodeT], dflt: Option<u32>) -> Scope {
+/// something services can be registered on: `App`, `Scope`, or the `ServiceConfig` of a
+/// `.configure(|cfg| …)` closure
+trait Parent: Sized {
+    fn svc<F: actix_web::dev::HttpServiceFactory + 'static>(self, f: F) -> Self;
+    fn rt(self, path: &str, route: actix_web::Route) -> Self;
+}
+
+impl Parent for Scope {
+    fn svc<F: actix_web::dev::HttpServiceFactory + 'static>(self, f: F) -> Self {
+        self.service(f)
+    }
+    fn rt(self, path: &str, route: actix_web::Route) -> Self {
+        self.route(path, route)
+    }
+}
+
+impl<T> Parent for App<T>
+where
+    T: actix_web::dev::ServiceFactory<ServiceRequest, Config = (), Error = actix_web::Error, InitError = ()>,
+{
+    fn svc<F: actix_web::dev::HttpServiceFactory + 'static>(self, f: F) -> Self {
+        self.service(f)
+    }
+    fn rt(self, path: &str, route: actix_web::Route) -> Self {
+        self.route(path, route)
+    }
+}
+
+impl Parent for &mut web::ServiceConfig {
+    fn svc<F: actix_web::dev::HttpServiceFactory + 'static>(self, f: F) -> Self {
+        self.service(f)
+    }
+    fn rt(self, path: &str, route: actix_web::Route) -> Self {
+        self.route(path, route)
+    }
+}
+
+fn add_children<P: Parent>(mut p: P, children: &[NodeT]) -> P {
+    for c in children {
+        p = match c {
+            NodeT::Scope { mw, .. } if mw.any() => p.svc(mk_scope(c).wrap(Mw::from(*mw))),
+            NodeT::Scope { .. } => p.svc(mk_scope(c)),
+            NodeT::Resource { pats, guards, data, routes, dflt, mw } if mw.any() => {
+                p.svc(mk_resource(pats, guards, *data, routes, *dflt).wrap(Mw::from(*mw)))
+            }
+            NodeT::Resource { pats, guards, data, routes, dflt, .. } => p.svc(mk_resource(pats, guards, *data, routes, *dflt)),
+            NodeT::RouteSugar { pat, route } => p.rt(pat, mk_route(route)),
+        };
+    }
+    p
+}
+
+/// the three builder orders of a level whose children `from..` go through `.configure(..)`
+macro_rules! build_level {
+    ($b:expr, $data:expr, $children:expr, $dflt:expr, $via:expr) => {{
+        let mut b = $b;
+        let (data, children, dflt): (Option<u32>, &[NodeT], Option<u32>) = ($data, $children, $dflt);
+        match $via {
+            None => {
+                if let Some(d) = data {
+                    b = b.app_data(Marker(d));
+                }
+                b = add_children(b, children);
+                if let Some(d) = dflt {
+                    b = b.default_service(mk_default(d));
+                }
+            }
+            Some(ViaT { order, from }) => {
+                let from = from.min(children.len());
+                let (direct, through) = children.split_at(from);
+                let inside = order == 'i';
+                if let (Some(d), false) = (data, inside) {
+                    b = b.app_data(Marker(d));
+                }
+                b = add_children(b, direct);
+                if let (Some(d), 'a') = (dflt, order) {
+                    b = b.default_service(mk_default(d));
+                }
+                b = b.configure(|cfg| {
+                    if let (Some(d), true) = (data, inside) {
+                        cfg.app_data(Marker(d));
+                    }
+                    add_children(&mut *cfg, through);
+                    if let (Some(d), true) = (dflt, inside) {
+                        cfg.default_service(mk_default(d));
+                    }
+                });
+                if let (Some(d), 'b') = (dflt, order) {
+                    b = b.default_service(mk_default(d));
+                }
+            }
+        }
+        b
+    }};
+}
+
+fn mk_scope(n: &NodeT) -> Scope {
+    let NodeT::Scope { pat, guards, data, children, dflt, via, .. } = n else { unreachable!() };
     let mut s = web::scope(pat);
     for g in guards {
         s = s.guard(mk_guard(g));
     }
-    if let Some(d) = data {
-        s = s.app_data(Marker(d));
-    }
-    for c in children {
-        s = match c {
-            NodeT::Scope { pat, guards, data, children, dflt, mw } if mw.any() => {
-                s.service(mk_scope(pat, guards, *data, children, *dflt).wrap(Mw::from(*mw)))
-            }
-            NodeT::Scope { pat, guards, data, children, dflt, .. } => s.service(mk_scope(pat, guards, *data, children, *dflt)),
-            NodeT::Resource { pats, guards, data, routes, dflt, mw } if mw.any() => {
-                s.service(mk_resource(pats, guards, *data, routes, *dflt).wrap(Mw::from(*mw)))
-            }
-            NodeT::Resource { pats, guards, data, routes, dflt, .. } => s.service(mk_resource(pats, guards, *data, routes, *dflt)),
-            NodeT::RouteSugar { pat, route } => s.route(pat, mk_route(route)),
-        };
-    }
-    if let Some(d) = dflt {
-        s = s.default_service(mk_default(d));
-    }
-    s
+    build_level!(s, *data, children, *dflt, *via)
 }
 
 async fn run_impl(app: &AppT, reqs: &[ReqT]) -> Vec<String> {
-    let mut a = App::new();
-    if let Some(d) = app.data {
-        a = a.app_data(Marker(d));
-    }
-    for c in &app.children {
-        a = match c {
-            NodeT::Scope { pat, guards, data, children, dflt, mw } if mw.any() => {
-                a.service(mk_scope(pat, guards, *data, children, *dflt).wrap(Mw::from(*mw)))
-            }
-            NodeT::Scope { pat, guards, data, children, dflt, .. } => a.service(mk_scope(pat, guards, *data, children, *dflt)),
-            NodeT::Resource { pats, guards, data, routes, dflt, mw } if mw.any() => {
-                a.service(mk_resource(pats, guards, *data, routes, *dflt).wrap(Mw::from(*mw)))
-            }
-            NodeT::Resource { pats, guards, data, routes, dflt, .. } => a.service(mk_resource(pats, guards, *data, routes, *dflt)),
-            NodeT::RouteSugar { pat, route } => a.route(pat, mk_route(route)),
-        };
-    }
-    if let Some(d) = app.dflt {
-        a = a.default_service(mk_default(d));
-    }
+    let a = build_level!(App::new(), app.data, &app.children, app.dflt, app.via);
     let srv = test::init_service(a).await;
     let mut outs = Vec::new();
     for r in reqs {
@@ -650,46 +726,32 @@ mod reference {
     }
 
     /// does `pat` match a prefix of `path` that ends at a segment boundary (or all of it when
-    /// `whole`)? Returns the matched length and the parameter values.
+    /// `whole`)? Returns the matched length and the parameter values. A dynamic segment takes as
+    /// much as it can and gives back one character at a time while the rest does not fit; literal
+    /// text is compared character by character, whatever it contains.
     pub fn match_pattern(pat: &str, whole: bool, path: &str) -> Option<(usize, Vec<(String, String)>)> {
-        let mut at = 0usize;
-        let mut params = Vec::new();
-        let mut tail = false;
-        for p in pieces(pat) {
+        fn go(ps: &[Piece], whole: bool, path: &str, at: usize) -> Option<(usize, Vec<(String, String)>)> {
             let rest = &path[at..];
+            let Some((p, more)) = ps.split_first() else {
+                return (rest.is_empty() || (!whole && rest.starts_with('/'))).then(|| (at, Vec::new()));
+            };
+            let run = |ok: &dyn Fn(u8) -> bool, name: &String| {
+                let max = rest.bytes().take_while(|b| ok(*b)).count();
+                (1..=max).rev().find_map(|n| {
+                    go(more, whole, path, at + n).map(|(end, mut ps)| {
+                        ps.insert(0, (name.clone(), rest[..n].to_owned()));
+                        (end, ps)
+                    })
+                })
+            };
             match p {
-                Piece::Text(t) => {
-                    if !rest.starts_with(&t) {
-                        return None;
-                    }
-                    at += t.len();
-                }
-                Piece::Seg(name) => {
-                    let n = rest.find('/').unwrap_or(rest.len());
-                    if n == 0 {
-                        return None;
-                    }
-                    params.push((name, rest[..n].to_owned()));
-                    at += n;
-                }
-                Piece::Digits(name) => {
-                    let n = rest.bytes().take_while(u8::is_ascii_digit).count();
-                    if n == 0 {
-                        return None;
-                    }
-                    params.push((name, rest[..n].to_owned()));
-                    at += n;
-                }
-                Piece::Tail(name) => {
-                    params.push((name, rest.to_owned()));
-                    at = path.len();
-                    tail = true;
-                }
+                Piece::Text(t) => rest.starts_with(t.as_str()).then(|| go(more, whole, path, at + t.len())).flatten(),
+                Piece::Seg(name) => run(&|b| b != b'/', name),
+                Piece::Digits(name) => run(&|b| b.is_ascii_digit(), name),
+                Piece::Tail(name) => Some((path.len(), vec![(name.clone(), rest.to_owned())])),
             }
         }
-        let rest = &path[at..];
-        let at_boundary = rest.is_empty() || (!whole && rest.starts_with('/'));
-        (tail || at_boundary).then_some((at, params))
+        go(&pieces(pat), whole, path, 0)
     }
 
     fn with_slash(p: &str) -> String {
@@ -742,7 +804,7 @@ mod reference {
         for n in nodes {
             let rest = &cx.path[at..];
             match n {
-                NodeT::Scope { pat, guards, data: d, children, dflt, mw: m } => {
+                NodeT::Scope { pat, guards, data: d, children, dflt, mw: m, .. } => {
                     let Some((len, ps)) = match_pattern(&with_slash(pat), false, rest) else { continue };
                     // a guard of the scope stands outside the scope: it sees the enclosing data
                     if !guards.iter().all(|g| holds(g, cx.req, data)) {
@@ -1139,10 +1201,79 @@ fn exhaustive_srvreq_and_startup(cases: &mut Vec<String>) {
     }
 }
 
-const R_SCOPE_PATS: &[&str] = &["/a", "a", "/a/", "", "/", "/{p}", "/a/{p}", "/{p:\\d+}", "/a/b", "/b"];
+/// fourth exhaustive family: literal text containing regex metacharacters after the last dynamic
+/// segment (`/{name}.json`, `/{n}.v1+x`, `/{n}(a)`): the literal must be compared literally, so a
+/// path that differs exactly at such a character goes to a later registration / the default, with
+/// untruncated parameters, and a two-segment pattern never takes a three-segment path
+fn exhaustive_literal_suffix(cases: &mut Vec<String>) {
+    let lits = [".json", ".v1+x", "(a)", ".j", ".txt"];
+    let mut paths: Vec<String> = Vec::new();
+    for l in lits {
+        let mut variants = vec![l.to_owned()];
+        for (i, c) in l.char_indices() {
+            if ".+()".contains(c) {
+                for r in ["/", "z"] {
+                    let mut v = l.to_owned();
+                    v.replace_range(i..i + 1, r);
+                    variants.push(v);
+                }
+            }
+        }
+        for v in &variants {
+            for base in ["/s", "/a.b", "/x/s"] {
+                paths.push(format!("{base}{v}"));
+            }
+        }
+        paths.push(format!("/s{l}{l}"));
+        paths.push(format!("/s{l}/x"));
+    }
+    paths.sort();
+    paths.dedup();
+    let reqs: String = paths.iter().map(|p| format!(" ;; GET {p}")).collect();
+    let firsts = ["/{name}.json", "/{n}.v1+x", "/{n}(a)", "/x/{n}.j", "/{a}.{b}", "/{n}.json|/{n}.txt", "/{n}.json/{m}.j"];
+    let seconds = ["", "r:/{slug} ( *>5 )", "r:/{a}/{b} ( *>6 )", "r:/{t}* ( *>7 )", "r:/x/{k} ( *>8 ) r:/{p}/{q}/{r} ( *>9 )"];
+    for head in ["app", "app df=20"] {
+        for f in firsts {
+            for sec in seconds {
+                cases.push(format!("{head} {{ r:{f} ( *>1 ) {sec} }}{reqs}").split_whitespace().collect::<Vec<_>>().join(" "));
+                if !f.contains('|') {
+                    cases.push(
+                        format!("{head} {{ s:{f} {{ r:/x ( *>1 ) r: ( *>2 ) }} {sec} }}{reqs}").split_whitespace().collect::<Vec<_>>().join(" "),
+                    );
+                }
+            }
+        }
+    }
+}
+
+/// fifth exhaustive family: the same tables built through `.configure(|cfg| …)` — children from
+/// index k on registered inside the closure — with `.default_service(..)` called before the
+/// configure call, after it, or inside the closure, on the app and on (nested) scopes
+fn exhaustive_configure(cases: &mut Vec<String>) {
+    let reqs = " ;; GET /a/b/z ;; GET /a/z ;; GET /z ;; GET /a/d ;; GET /a/b/c ;; GET /y ;; GET /x";
+    let vias = ["", " c=a0", " c=a1", " c=a3", " c=b0", " c=b1", " c=i0", " c=i2"];
+    for hd in ["", " df=9", " d=1 df=9"] {
+        for av in vias {
+            for sd in ["", " df=7", " d=2 df=7"] {
+                for sv in vias {
+                    for bv in ["", " c=a0", " df=5 c=a1"] {
+                        if av.is_empty() && sv.is_empty() && bv.is_empty() {
+                            continue;
+                        }
+                        cases.push(format!(
+                            "app{hd}{av} {{ r:/x ( *>1 ) s:/a{sd}{sv} {{ s:/b{bv} {{ r:/c ( *>2 ) }} r:/d ( *>3 ) }} r:/y ( *>4 ) }}{reqs}"
+                        ));
+                    }
+                }
+            }
+        }
+    }
+}
+
+const R_SCOPE_PATS: &[&str] = &["/a", "a", "/a/", "", "/", "/{p}", "/a/{p}", "/{p:\\d+}", "/a/b", "/b", "/{p}.d", "/a.b"];
 const R_LEAF_PATS: &[&str] = &[
     "/x", "x", "", "/", "/{id}", "/{id}/x", "/x/{id:\\d+}", "/{t}*", "/f/{t:.*}", "/a", "/a/x", "/x/", "/x|/y/{id}", "/{id}|/x",
-    "/v{id}", "/{a}/{b}", "/b",
+    "/v{id}", "/{a}/{b}", "/b", "/{name}.json", "/{id}.v1+x", "/{id}(a)", "/x/{id}.j", "/{a}-{b}", "/{n}.json|/{n}.txt", "/f.x",
 ];
 const R_GUARDS: &[&str] =
     &["M~GET", "M~POST", "H~x-a~1", "O~ex1", "N(M~GET)", "Y(M~GET,M~POST)", "A(M~GET,H~x-a~1)", "N(Y(M~PUT,H~x-a~2))"];
@@ -1192,6 +1323,13 @@ fn gen_mw_attr(rng: &mut Rng, ids: &mut Ids, out: &mut String) {
     }
 }
 
+/// register a suffix of the children through `.configure(..)`, in one of the three orders
+fn gen_via_attr(rng: &mut Rng, out: &mut String) {
+    if rng.chance(1, 4) {
+        out.push_str(&format!(" c={}{}", rng.pick(&['a', 'b', 'i']), rng.below(3)));
+    }
+}
+
 fn route_guard(rng: &mut Rng, visible: &[u32]) -> String {
     if rng.chance(1, 8) {
         data_guard(rng, visible)
@@ -1231,6 +1369,7 @@ fn gen_nodes(
                 out.push_str(&format!(" d={d}"));
             }
             gen_mw_attr(rng, ids, out);
+            gen_via_attr(rng, out);
             let df = rng.chance(1, 3).then(|| ids.fresh());
             if let Some(d) = df {
                 out.push_str(&format!(" df={d}"));
@@ -1312,6 +1451,9 @@ fn instantiate(rng: &mut Rng, leaf: &Leaf) -> (String, Vec<(String, String)>) {
                 }
             } else if re == Some("\\d+") {
                 (*rng.pick(&["5", "12", "007", "%35"])).into()
+            } else if pat.chars().any(|c| ".+()-".contains(c)) {
+                // several ways to split a value at the literal would make the ground truth ambiguous
+                (*rng.pick(&["5", "ab", "x", "12", "%61", "%41%42"])).into()
             } else {
                 (*rng.pick(SEG_VALUES)).into()
             };
@@ -1328,6 +1470,16 @@ fn instantiate(rng: &mut Rng, leaf: &Leaf) -> (String, Vec<(String, String)>) {
 
 fn mutate(rng: &mut Rng, p: &str) -> String {
     let mut s = p.to_owned();
+    // a literal that is a regex metacharacter replaced by something else (the pattern must stop matching)
+    if rng.chance(1, 4) {
+        let end = s.find('?').unwrap_or(s.len());
+        let metas: Vec<usize> = s[..end].char_indices().filter(|(_, c)| ".+()$-".contains(*c)).map(|(i, _)| i).collect();
+        if !metas.is_empty() {
+            let i = *rng.pick(&metas);
+            s.replace_range(i..i + 1, *rng.pick(&["/", "z", "-", "%2E"]));
+            return s;
+        }
+    }
     match rng.below(8) {
         0 => s.push('/'),
         1 => s.push_str("/zz"),
@@ -1411,6 +1563,8 @@ fn gen(ctx: &Ctx) -> Vec<String> {
         exhaustive_small(&mut cases);
         exhaustive_attrs(&mut cases);
         exhaustive_srvreq_and_startup(&mut cases);
+        exhaustive_literal_suffix(&mut cases);
+        exhaustive_configure(&mut cases);
     }
     let mut rng = Rng::new(ctx.seed);
     for _ in 0..ctx.budget(6000) {
@@ -1426,6 +1580,7 @@ fn gen(ctx: &Ctx) -> Vec<String> {
         if let Some(d) = df {
             s.push_str(&format!(" df={d}"));
         }
+        gen_via_attr(&mut rng, &mut s);
         s.push_str(" {");
         let mut leaves = Vec::new();
         gen_nodes(&mut rng, &mut ids, 0, &[], &mut s, &mut leaves, &visible);
